@@ -219,7 +219,7 @@ func (n *Node) considerTip(e *blockEntry) {
 }
 
 func errClass(err error) string {
-	s := err.Error()
+	s := errStr(err)
 	if len(s) > 60 {
 		s = s[:60]
 	}
